@@ -1,5 +1,6 @@
 import Svgbob.Proofs.DocSafe
 import Svgbob.Proofs.Decode
+import Svgbob.Gen.Consts
 /-!
 # C02 — the output is one well-formed SVG/XML document that round-trips the text
 
@@ -66,6 +67,11 @@ theorem root_is_svg (len : List Char → Nat) (cfg : Cfg) (cells : List (Cell ×
 /-- a number is written with digits, sign and decimal point only -/
 theorem numbers_are_decimal (den : Nat) (n : Int) : ∀ c ∈ renderNum den n, numChar c = true :=
   renderNum_num den n
+
+/-- the model's escape function agrees with the literal rows of `replace_html_char` as they stand
+in the source now (regenerated table) -/
+theorem escape_table_matches_source :
+    Gen.escapeTable.all (fun cr => replaceHtmlChar cr.1 == cr.2.toList) = true := by decide
 
 /-! Non-vacuity / tests (labelled as tests). -/
 example : escapeHtmlText "a<b&\"c\"".toList = "a&lt;b&amp;&quot;c&quot;".toList := by decide
